@@ -110,7 +110,7 @@ def build_and_send(instrumented, cfg):
     if cfg["req_headers"] is not None:
         kw["headers"] = cfg["req_headers"]
     for k in ("params", "cookies", "json"):
-        if cfg[k] != "absent":
+        if not (isinstance(cfg[k], str) and cfg[k] == "absent"):
             kw[k] = cfg[k]
     drive(t.request("GET", "/p", **kw))
     if len(rec.calls) != 1:
@@ -273,7 +273,8 @@ class TransportOb(Obligation):
             cfg["req_headers"] = {"X-A": val(1)}
             cfg["params"] = [lambda: "absent", lambda: None, lambda: {"q": val(1)}, lambda: {"z": val(1)}][e.choose(4)]()
             cfg["cookies"] = [lambda: "absent", lambda: None, lambda: {"k": val(1)}][e.choose(3)]()
-            cfg["json"] = [lambda: "absent", lambda: {"b": val(1)}][e.choose(2)]()
+            # a body that is present but falsy ([] / {} / 0 / False / "") is still the caller's body
+            cfg["json"] = [lambda: "absent", lambda: {"b": val(1)}, lambda: [], lambda: {}, lambda: 0, lambda: False, lambda: ""][e.choose(7)]()
             cfg["bearer_token"] = val(1) if e.choose(2) else None
         return {"cfg": cfg}
 
@@ -306,9 +307,12 @@ class TransportOb(Obligation):
             return False
         if not same_items(sent.get("cookies"), ec):
             return False
-        if cfg["json"] != "absent" and not second:
+        if not (isinstance(cfg["json"], str) and cfg["json"] == "absent") and not second:
             j = sent.get("json")
-            if not (isinstance(j, list) and same_items(j, list(cfg["json"].items()))):
+            if isinstance(cfg["json"], dict) and cfg["json"]:
+                if not (isinstance(j, list) and same_items(j, list(cfg["json"].items()))):
+                    return False
+            elif "json" not in sent or j != _plain({"json": cfg["json"]})["json"] or type(j) is not type(_plain({"json": cfg["json"]})["json"]):
                 return False
         elif "json" in sent:
             return False
